@@ -54,6 +54,18 @@ CHECKS = {
         note="Trusted: TLC, the wall-clock limit as the meaning of 'bounded time', the recording wrappers. Input space is a cover, not exhaustive.",
         design_ref="DESIGN.md sections 3.2, 5 (C04)",
     ),
+    "C05": dict(
+        category="model_checking",
+        technique="TLA+ cache model (Cache.tla) model-checked by TLC (design condition + counterexamples); every TLC history replayed into one long-lived process with a faithfulness watch on core.parse",
+        text=("Cache.tla models the parse LRU, shared trees under three rule disciplines and an origin lookup keyed without the file "
+              "system; TLC explores every call history with evictions and file system changes and checks CacheFaithful / "
+              "HistoryIndependent under the discipline the code claims, and exhibits the counterexamples for a mutating rule and a "
+              "stale-prone lookup. Every history (all of length 2-3 over the alphabet of real calls x 3 texts, plus sampled longer ones) "
+              "is replayed into one process: after each call every tree ever handed out by core.parse is compared (positions included) "
+              "with a fresh parse, and the last result with the result of the same call in a fresh state."),
+        note="Trusted: TLC; a fresh process is emulated by clearing every lru_cache of pyrefact. History length bounded.",
+        design_ref="DESIGN.md sections 3.4, 5 (C05)",
+    ),
     "C07": dict(
         category="model_checking",
         technique="TLA+ generator of module surfaces (Surface.tla) enumerated by TLC; safe-mode runs recorded and validated by TLC against PipelineTrace.tla (FinalSurface)",
@@ -120,6 +132,29 @@ CHECKS = {
         note=("Trusted: TLC, CPython as the ground truth for the TLA+ semantics (checked on every case, exit 2 on disagreement), "
               "the execution sandbox. Cases the TLA+ semantics marks out-of-model are decided by CPython directly."),
         design_ref="DESIGN.md sections 3.7, 5 (C15)",
+    ),
+    "C16": dict(
+        category="model_checking",
+        technique="TLA+ small-step semantics of structured statements (Reach.tla): TLC decides reachability by exploring every execution; spec validated against CPython; rules replayed and compared on deleted marks and mark traces; Effects.tla for pointless statements",
+        text=("Reach.tla gives compound statements over leaf statements with known / unknown tests a transition semantics; TLC explores "
+              "every execution of every generated shape (all resolutions of unknowns, 0-2 loop iterations) and thereby decides which "
+              "observable statements are reachable. Every shape is executed under CPython for 63 tapes of unknown outcomes (executed "
+              "marks must equal the reachable set: spec validation), then rewritten by every reachability-consuming rule and by "
+              "format_code: a deleted mark must be unreachable and the mark trace equal for every tape. Effects.tla enumerates statement "
+              "forms x contexts x callee kinds with the ideal 'pointless' predicate, replayed into delete_pointless_statements / format_code."),
+        note="Trusted: TLC, CPython as ground truth for the semantics (exit 2 on disagreement). Bounded nesting depth and block length.",
+        design_ref="DESIGN.md sections 3.7, 5 (C16)",
+    ),
+    "C17": dict(
+        category="model_checking",
+        technique="TLA+ formula semantics (BoolAlg.tla, Ranges.tla): TLC enumerates the bounded formula space with truth tables over the box; every rewriting rule replayed and its output evaluated under CPython for all valuations",
+        text=("BoolAlg.tla defines formulas over comparisons of integer variables with Eval and checks negation by De Morgan / reversed "
+              "comparisons on the whole space; TLC writes every formula with its truth table over [-2, 4]^k (validated against CPython). "
+              "Each formula is rewritten by every condition-rewriting rule inside program templates (assignment, if/else, loops, return) "
+              "and the rewritten program is evaluated for every valuation. Ranges.tla does the same for range comprehensions with filters "
+              "and sums over ranges (expected lists / sums computed from the definition of range)."),
+        note="Trusted: TLC, CPython for evaluating rule outputs. The box is complete for variable-vs-constant atoms, a bound otherwise.",
+        design_ref="DESIGN.md sections 3.7, 5 (C17)",
     ),
     "C20": dict(
         category="model_checking",
